@@ -233,9 +233,6 @@ class Realised:
             else:
                 smpl = topo.interfaces.sample('gauss', 1)
             self.sample = smpl
-            X = numpy.asarray(smpl.eval(x))
-            P = len(X)
-            self.leaf['x'] = [(X, numpy.broadcast_to(numpy.eye(D), (P, D, D)))] * 2
             if version == 2:
                 ns.define_for('x', gradient='∇', normal='n', jacobians=('dV', 'dS'))
                 ns.define_for('x', gradient='d')
@@ -243,6 +240,27 @@ class Realised:
                 extra = dict(n=ns.n, dV=ns.dV, dS=ns.dS)
             else:
                 extra = dict(n=function.normal(x))
+            for name, f in g['disc'].items():
+                basis = topo.basis('discont', degree=0)
+                co = values((len(basis),) + tuple(f['shape']), f['seed'])
+                arr = (basis[(slice(None),) + (numpy.newaxis,) * len(f['shape'])] * co).sum(0)
+                setattr(ns, name, arr)
+                extra[name] = arr
+            # one batched evaluation of everything whose per-point value is taken from nutils itself (homomorphism oracle)
+            want = [('x', x, 0)]
+            for name, arr in extra.items():
+                if g['mode'] == 'interior':
+                    if name == 'dV' and version == 2:
+                        want.append((name, arr, 0))
+                elif name != 'dV':
+                    want.append((name, arr, 0))
+                    if g['mode'] == 'interfaces':
+                        want.append((name, function.opposite(arr), 1))
+            got = smpl.eval([arr for name, arr, side in want])
+            vals = {(name, side): numpy.asarray(v) for (name, arr, side), v in zip(want, got)}
+            X = vals['x', 0]
+            P = len(X)
+            self.leaf['x'] = [(X, numpy.broadcast_to(numpy.eye(D), (P, D, D)))] * 2
             for name, f in g['fields'].items():
                 c0, c1, c2 = _field_coeffs(f, D)
                 arr = c0 + (c1 * x).sum(-1) + ((c2 * x[:, numpy.newaxis]) * x).sum(-1).sum(-1)
@@ -250,31 +268,15 @@ class Realised:
                 val = c0 + numpy.einsum('...d,pd->p...', c1, X) + numpy.einsum('...de,pd,pe->p...', c2, X, X)
                 grad = c1 + numpy.einsum('...de,pe->p...d', c2, X) + numpy.einsum('...de,pd->p...e', c2, X)
                 self.leaf[name] = [(val, grad)] * 2
-            for name, f in g['disc'].items():
-                basis = topo.basis('discont', degree=0)
-                co = values((len(basis),) + tuple(f['shape']), f['seed'])
-                arr = (basis[(slice(None),) + (numpy.newaxis,) * len(f['shape'])] * co).sum(0)
-                setattr(ns, name, arr)
-                extra[name] = arr
-            if g['mode'] != 'interior':
-                for name, arr in extra.items():
-                    if name in ('dV',) or (name == 'dS' and g['mode'] == 'interior'):
-                        continue
-                    if g['mode'] == 'boundary':
-                        here = there = smpl.eval(arr)
-                    else:
-                        here, there = smpl.eval([arr, function.opposite(arr)])
-                    zero = numpy.zeros(numpy.shape(here) + (D,)) if name in g['disc'] else None
-                    self.leaf[name] = [(numpy.asarray(here), zero), (numpy.asarray(there), zero)]
-                    self.nonsmooth.add(name)
-            else:
-                if version == 2:
-                    here = numpy.asarray(smpl.eval(extra['dV']))
-                    self.leaf['dV'] = [(here, None)] * 2
-                    self.nonsmooth.add('dV')
             for name, arr in extra.items():
-                if name not in self.leaf:
+                if (name, 0) not in vals:
                     self.opaque[name] = tuple(arr.shape)
+                    continue
+                here = vals[name, 0]
+                there = vals.get((name, 1), here)
+                zero = numpy.zeros(numpy.shape(here) + (D,)) if name in g['disc'] else None
+                self.leaf[name] = [(here, zero), (there, zero)]
+                self.nonsmooth.add(name)
         self.P = P
         for name, v in spec['vars'].items():
             val = values(v['shape'], v['seed'])
